@@ -264,9 +264,9 @@ Proof.
   apply (reads_cons MTop _ [SComment c] MTop); [reflexivity|exact IH].
 Qed.
 
-Theorem classify_emit n : covers_ok n = true -> classify (emit n) = Ok (stmts_of n).
+Theorem classify_emit n : covers_ok n = true -> tokenized (emit n) = true -> classify (emit n) = Ok (stmts_of n).
 Proof.
-  intro Hc. unfold classify. rewrite emit_eq.
+  intros Hc Ht. unfold classify. rewrite Ht. rewrite emit_eq.
   assert (R : reads MTop (map (fun c => k_hash :: c) (b_comments n) ++ [generated_by; []] ++
            flat_map (fun nm => model_lines (b_models n) (get_model nm (b_models n))) (written_names n) ++
            flat_map (fun nm => blackbox_lines (get_model nm (b_models n))) (written_bbs n)) (stmts_of n) MTop).
